@@ -2,6 +2,7 @@ import VelaVerif.Model.TfliteText
 import VelaVerif.Model.TfliteWriter
 import VelaVerif.Model.TfliteReader
 import VelaVerif.Spec.TfliteFile
+import VelaVerif.Spec.TfliteRoundtrip
 import VelaVerif.Handlers.Util
 /-!
 Requests of the TFLite writer / reader models (syntax: Model/TfliteText.lean).
@@ -17,6 +18,9 @@ Requests of the TFLite writer / reader models (syntax: Model/TfliteText.lean).
 `wreaderr <kind> <model>` the real reader raised <kind>: `same` / `differ model=…`
 `wspec <desc> <model>`    Spec.conforms: does the walked file say what the graph says? `ok` | `bad <n> <kind>|<detail> ~ …`
 `wreadspec <desc>`        Spec.readOk on the description of what the real reader built
+`wnorm <desc> <desc>`     Spec.normalise of the written description vs the description of what the real reader built from the real
+                          writer's file (blanked like `wread`): `same <tensors> <operators>` | `differ …`; `wnormerr <kind> <desc>`: the real reader raised <kind>
+`wdomain <desc>`          Spec.conformsDomainB: is the description in the domain of `conforms_write`? `in` | `out <clause>`
 `wmeta <version> <model> <model>`   Spec.metadataKept source file / written file
 `wloop <desc>`            model only: t1 = write d, t2 = write (read t1); are t1 and t2 the same file up to buffer and operator-code numbering (tensor
                           data / code entries compared through the index), metadata, description and trailing absent operands? `same <n>` |
@@ -128,6 +132,44 @@ def handle : List String → Option String
       | some d, some t => some (showProblems (Spec.conforms d t))
       | none, _ => some "err:bad-desc"
       | _, none => some "err:bad-model"
+    | _ => some "err:bad-request"
+  | "wnorm" :: toks =>
+    match Sx.parseAll toks with
+    | some [dx, rx] =>
+      match decDesc dx, decDesc rx with
+      | some d, some r =>
+        match Spec.normalise d with
+        | .error e => some s!"differ model=err:{e} real=ok"
+        | .ok n =>
+          match Sx.diff "" (encDesc (normRead { n with version := [] })) (encDesc (normRead { r with version := [] })) with
+          | none => some s!"same {n.tensors.length} {(n.subgraphs.map (·.ops.length)).sum}"
+          | some x => some (showDiff x "model" "real")
+      | none, _ => some "err:bad-desc"
+      | _, none => some "err:bad-desc"
+    | _ => some "err:bad-request"
+  | "wnormerr" :: kind :: toks =>
+    match Sx.parseAll toks with
+    | some [dx] =>
+      match decDesc dx with
+      | some d =>
+        match Spec.normalise d with
+        | .error e => if e == kind then some "same" else some s!"differ model=err:{e} real=err:{kind}"
+        | .ok _ =>
+          -- stated limit of the models: option tables are opaque, so the subgraph indices inside the options of CallOnce / While
+          -- (positions in `nng.subgraphs`) are not followed; when a subgraph is not written (placement ≠ Cpu) they can point
+          -- beyond the subgraphs of the file and the real reader raises IndexError while attaching `attrs["subgraph"]`
+          if kind == "index" && d.subgraphs.any (!·.cpu) &&
+              d.subgraphs.any (fun s => s.cpu && s.ops.any fun o => o.type == "CallOnce" || o.type == "While") then
+            some "outside subgraph-index-in-options"
+          else some s!"differ model=ok real=err:{kind}"
+      | none => some "err:bad-desc"
+    | _ => some "err:bad-request"
+  | "wdomain" :: toks =>
+    match Sx.parseAll toks with
+    | some [dx] =>
+      match decDesc dx with
+      | some d => some (if Spec.conformsDomainB d then "in" else "out " ++ Spec.domainClause d)
+      | none => some "err:bad-desc"
     | _ => some "err:bad-request"
   | "wreadspec" :: toks =>
     match Sx.parseAll toks with
